@@ -12,6 +12,9 @@ let () =
     | "c12" -> C12.model_line, Some C12.judge_line
     | "c11" -> C11.model_line, Some C11.judge_line
     | "unicode" -> C11.unicode_line, None
+    | "xp" -> Xp.model_line, None
+    | "xp13" -> Xp.model_line, Some Xp.judge13
+    | "xp14" -> Xp.model_line, Some Xp.judge14
     | _ -> failwith ("unknown property " ^ prop) in
   let out = Buffer.create 65536 in
   List.iteri (fun i c ->
